@@ -23,6 +23,7 @@ Import ListNotations.
 Theorem c14_any_two_spellings : forall t d d' hs,
   Forall (species_sane t) (d_species d) -> NoDup (declared d) ->
   d_species d' = d_species d ->
+  NoDup (flat_map refs_of (d_groups d)) -> NoDup (flat_map refs_of (d_groups d')) ->
   Forall2 (spells_top t) hs (d_groups d) -> Forall2 (spells_top t) hs (d_groups d') ->
   (forall genes, map fst genes = declared d ->
      (forall g p, In (g, p) genes -> exists sp, In sp (d_species d) /\ In g (map gd_id (sp_genes sp)) /\ species_resolves t sp p) ->
@@ -31,12 +32,13 @@ Theorem c14_any_two_spellings : forall t d d' hs,
     Forall2 (fun h top => matches h (snd top) /\ htax (snd top) = xtax h /\ wf_node t (snd top) = true) hs (l_tops l) /\
     Forall2 (fun h top => matches h (snd top) /\ htax (snd top) = xtax h /\ wf_node t (snd top) = true) hs (l_tops l').
 Proof.
-  intros t d d' hs Hsp Hnd Hs Hg Hg' Hwf.
-  destruct (spelt_load t d hs Hsp Hnd Hg Hwf) as (l & El & Fl).
+  intros t d d' hs Hsp Hnd Hs Hrf Hrf' Hg Hg' Hwf.
+  destruct (spelt_load t d hs Hsp Hnd Hrf Hg Hwf) as (l & El & Fl).
   assert (Hdecl : declared d' = declared d) by (unfold declared; rewrite Hs; reflexivity).
   destruct (spelt_load t d' hs) as (l' & El' & Fl').
   - rewrite Hs. exact Hsp.
   - rewrite Hdecl. exact Hnd.
+  - exact Hrf'.
   - exact Hg'.
   - intros genes Hm Hr. apply Hwf; [rewrite <- Hdecl; exact Hm|]. intros g p Hin. rewrite <- Hs. apply Hr. exact Hin.
   - exists l, l'. auto.
